@@ -110,6 +110,7 @@ def run(F, R, ctx):
     c08.bulk_discard_rule(F, R)
     if "jit2" in (F.meta.get("features") or []):
         jitmodel.helper_panic_rule(F, R, "C07.j")
+        jitmodel.name_table_gate_rule(F, R, "C02.n")
     slice_guard_rule(F, R)
     # ---- c
     nat = natives(F)
